@@ -411,8 +411,26 @@ func checkC01(c *Ctx) {
 	exprS1(emitPrint)
 	exprS2(emitPrint, c.Thorough())
 	exprS4(emitPrint, map[bool]int{false: 2, true: 3}[c.Thorough()])
-	exprS5(emitPrint)
-	exprS6(emitPrint)
+	// function calls and argument contexts also after an earlier call and printed twice in one
+	// render (whatever an evaluation leaves in the render state must not reach the next one).
+	repeated := position{"print twice after a call", func(src string) (string, string, []string, bool) {
+		return "{length([1, 2])}A{" + src + "}B{" + src + "}C", "", nil, true
+	}, func(env *Env, e *E) (string, status) {
+		s, st := env.printed(e)
+		switch st {
+		case stOK:
+			return "2A" + s + "B" + s + "C", stOK
+		case stError:
+			return "2A", stError
+		}
+		return "", stUnspec
+	}}
+	emitTwice := func(stratum string, e *E) {
+		emitPrint(stratum, e)
+		run(stratum+"r", repeated, e, 0)
+	}
+	exprS5(emitTwice)
+	exprS6(emitTwice)
 	c01DataDriven(c)
 	// S3: every syntactic position x lexer-stressing shapes
 	for _, p := range pos {
